@@ -121,3 +121,10 @@ func genCfg(withSync bool) sim.GenConfig {
 		WithSync:    withSync,
 	}
 }
+
+// Note: sim can also let a replica restart from a length-limited load ("loadtail", GenConfig.WithPartial).
+// No CRDT check enables it: such logs are not causally closed, they are outside the histories the
+// statements quantify over (appends and unbounded merges), and the unchanged library itself does not keep
+// the structural clauses on them (observed at thorough scale: a head that a held entry references after a
+// limited manifest load; an empty merge that drops a head; Values() that is not a supersequence of the
+// previous one) - asserting anything there would raise alarms on code where the properties hold.
